@@ -4,6 +4,19 @@
  * given / dropped and concealed).   Mode:  sched
  */
 #include "vcodec.h"
+/* frozen build of the same arithmetic, fed exactly like the tree decoders (linked when the run asks for it) */
+#ifdef VERIF_HAVE_REF
+#ifdef FIXED_POINT
+#define RD(x) rfx_##x
+#else
+#define RD(x) ref_##x
+#endif
+OpusDecoder *RD(opus_decoder_create)(opus_int32,int,int*); int RD(opus_decode_float)(OpusDecoder*,const unsigned char*,opus_int32,float*,int,int); void RD(opus_decoder_destroy)(OpusDecoder*);
+#endif
+#ifndef C20_RESUME_DIST_DB
+#define C20_RESUME_DIST_DB 15.0   /* a 5 ms block of resumed audio counts as off when it is less than this far (dB below the block level) from the frozen build's */
+#define C20_RESUME_BADFRAC 0.10
+#endif
 #ifdef FIXED_POINT
 #define ANALYSIS_CX 10
 #else
@@ -22,7 +35,10 @@ static void mode_sched(void){
   int onset_q=vc_chance(&r,1,2)?0:(int)vc_range(&r,1,6);   /* eighths of the first active frame that are still digital silence */
   OpusEncoder *e=opus_encoder_create(Fs,ch,app,&err); opus_encoder_ctl(e,OPUS_SET_DTX(dtx)); opus_encoder_ctl(e,OPUS_SET_COMPLEXITY(cx)); opus_encoder_ctl(e,OPUS_SET_BITRATE(bitrate)); opus_encoder_ctl(e,OPUS_SET_VBR(vbr)); if(fmode!=OPUS_AUTO) opus_encoder_ctl(e,VK_SET_FORCE_MODE_REQUEST,fmode);
   if(vc_chance(&r,1,4)) opus_encoder_ctl(e,OPUS_SET_SIGNAL(OPUS_SIGNAL_VOICE));
-  OpusDecoder *dA=opus_decoder_create(Fs,ch,&err), *dB=opus_decoder_create(Fs,ch,&err);
+  OpusDecoder *dA=opus_decoder_create(Fs,ch,&err), *dB=opus_decoder_create(Fs,ch,&err); OpusDecoder *fA=NULL,*fB=NULL; static float qA[5760*2], qB[5760*2];
+#ifdef VERIF_HAVE_REF
+  fA=RD(opus_decoder_create)(Fs,ch,&err); fB=RD(opus_decoder_create)(Fs,ch,&err);
+#endif
   int analysis=(cx>=ANALYSIS_CX&&Fs>=16000);
   /* schedule in packets: alternating active / silent segments */
   int seg_len[16], seg_act[16]; int nseg=vc_range(&r,3,9); int act=1; long total=0;
@@ -33,7 +49,7 @@ static void mode_sched(void){
   double subms= Dms<=20?Dms:20; long br_eff= bitrate==OPUS_AUTO?(long)(60*1000/Dms+Fs*ch):bitrate; int nsub=(int)(Dms/subms+0.5); int budget_ok= maxb>=1500 /* small buffers make the encoder fall back to 1-2 byte 'conceal this' packets whatever the DTX setting: they are run for robustness but are outside the packet-size clauses */ && (boundary? br_eff*Dms/8000.0>=3.0 : br_eff*subms/8000.0>=4.0); (void)nsub; if(boundary) vc_count("dtx_off_cases_at_three_bytes_per_frame",1);
   char desc[260]; snprintf(desc,sizeof desc,"Fs=%d ch=%d app=%d cx=%d frame=%.1fms dtx=%d vbr=%d bitrate=%d mode=%d maxb=%d onset at %d/8 of a frame%s",Fs,ch,app,cx,Dms,dtx,vbr,bitrate,fmode,maxb,onset_q,antiphase?" antiphase":"");
   int run=0; /* consecutive <=2-byte packets */ double active_rms_in=0; long nact=0; int refresh_seen=0;
-  for(int s=0;s<nseg;s++){ int first_dtx_at=-1; int act_now=seg_act[s]; double eA=0,eB=0,eI=0; long eN=0;
+  for(int s=0;s<nseg;s++){ int first_dtx_at=-1; int act_now=seg_act[s]; double eA=0,eB=0,eI=0; long eN=0; long rblk=0, rbadA=0, rbadB=0;
     for(int k=0;k<seg_len[s];k++){
       if(act_now){ vs_fill(&g,in,fs); if(antiphase) for(int i=0;i<fs;i++) in[2*i+1]=-in[2*i]; if(k==0&&s>0&&onset_q>0){ /* activity resumes inside the frame, not at its start */ int z=fs*onset_q/8; memset(in,0,sizeof(float)*(size_t)z*ch); vc_count("onsets_inside_a_frame",1); } active_rms_in+=rms(in,fs*ch); nact++; } else { memset(in,0,sizeof(float)*fs*ch); g.t+=(double)fs/Fs; }
       int len=opus_encode_float(e,in,fs,pk,maxb); vc_count("packets",1); if(len<=0){ if(len==OPUS_BUFFER_TOO_SMALL&&!budget_ok) continue; vc_viol("encode-failed","encode returned %d (%s)",len,desc); goto out; }
@@ -41,6 +57,10 @@ static void mode_sched(void){
       /* decoders */
       { int rA=opus_decode_float(dA,pk,len,oA,fs,0); int rB= tiny?opus_decode_float(dB,NULL,0,oB,fs,0):opus_decode_float(dB,pk,len,oB,fs,0); if(rA!=fs||rB!=fs){ vc_viol("decoder:duration","decoders returned %d / %d for a %d-sample packet (len %d) %s",rA,rB,fs,len,desc); goto out; }
         if(!act_now&&k*Dms>700&&dtx&&budget_ok){ double a=rms(oA,fs*ch), b=rms(oB,fs*ch); vc_max("gap_rms_fed",a); vc_max("gap_rms_concealed",b); if(a>0.02||b>0.02){ vc_viol("decoder:gap-not-silent","decoded level %.4f (DTX packets fed) / %.4f (concealed) %.0f ms into a silent gap (%s)",a,b,k*Dms,desc); goto out; } }
+#ifdef VERIF_HAVE_REF
+        if(fA&&fB){ RD(opus_decode_float)(fA,pk,len,qA,fs,0); if(tiny) RD(opus_decode_float)(fB,NULL,0,qB,fs,0); else RD(opus_decode_float)(fB,pk,len,qB,fs,0);
+          if(act_now&&s>0&&!tiny&&k*Dms>=200){ int B=Fs/200; if(B>fs) B=fs; for(int b0=0;b0+B<=fs;b0+=B){ double sa=0,da=0,sb=0,db=0; for(int i=b0*ch;i<(b0+B)*ch;i++){ double x=qA[i], y=qB[i], u=oA[i]-x, v=oB[i]-y; sa+=x*x; sb+=y*y; da+=u*u; db+=v*v; } if(sa<1e-5*B*ch||sb<1e-5*B*ch) continue; rblk++; double th=pow(10,-C20_RESUME_DIST_DB/10); if(da>th*sa) rbadA++; if(db>th*sb) rbadB++; } } }
+#endif
         if(act_now&&k*Dms>=400){ for(int i=0;i<fs*ch;i++){ eA+=(double)oA[i]*oA[i]; eB+=(double)oB[i]*oB[i]; eI+=(double)in[i]*in[i]; } eN+=fs; } }
       if(!dtx){ if(tiny&&budget_ok){ vc_viol("dtx-off:tiny-packet","DTX disabled but packet %d of segment %d (%s input) has %d byte(s) (%s)",k,s,act_now?"active":"silent",len,desc); goto out; } run=0; continue; }
       /* DTX enabled */
@@ -54,6 +74,8 @@ static void mode_sched(void){
       vc_sig3((uint64_t)(pk[0]>>3)|((uint64_t)tiny<<5)|((uint64_t)act_now<<6)|((uint64_t)indtx<<7),(uint64_t)fidx|((uint64_t)analysis<<4)|((uint64_t)dtx<<5)|((uint64_t)vbr<<6),(uint64_t)(Fs/8000)|((uint64_t)ch<<3)|((uint64_t)(cx/4)<<5)); }
     /* audio after the gap: over the part of an active segment from 400 ms on (at least 400 ms of it), decoded energy tracks the input */
     if(seg_act[s]&&s>0&&eN*1000.0/Fs>=400&&!antiphase&&br_eff>=12000*ch&&budget_ok&&eI>0){ double la=10*log10(eA/eI+1e-12), lb=10*log10(eB/eI+1e-12); vc_min("resumed_level_db_fed",la); vc_min("resumed_level_db_concealed",lb); vc_max("resumed_level_db_max",la>lb?la:lb); if(la<-12||lb<-12||la>6||lb>6){ vc_viol("decoder:no-audio-after-gap","decoded level %.1f dB (DTX packets fed) / %.1f dB (concealed) relative to the input over renewed activity (%s)",la,lb,desc); goto out; } vc_count("resumed_segments_checked",1); }
+    /* audio after the gap, relative to the frozen build fed the same packets the same way: resumed audio is "normal" when it is what the pinned decoder produces */
+    if(rblk>=20){ vc_count("resumed_blocks_compared_with_frozen_build",rblk); vc_max("resumed_fraction_of_blocks_off_frozen_build",(double)(rbadA>rbadB?rbadA:rbadB)/rblk); if(rbadA>C20_RESUME_BADFRAC*rblk||rbadB>C20_RESUME_BADFRAC*rblk){ vc_viol("decoder:resumed-audio-differs-from-frozen-build","from 200 ms into renewed activity %ld (DTX packets fed) / %ld (concealed) of %ld audible 5 ms blocks are less than %.0f dB away from what the frozen build decodes from the same packets (%s)",rbadA,rbadB,rblk,C20_RESUME_DIST_DB,desc); goto out; } vc_count("resumed_segments_compared_with_frozen_build",1); }
     /* start of DTX within a silent segment (generalised detector in charge: digital silence) */
     if(dtx&&!seg_act[s]&&analysis&&budget_ok&&s>0&&seg_len[s-1]*Dms>=400){ double need=200+2*Dms+1e-6; if(seg_len[s]*Dms>=need){ if(first_dtx_at<0){ vc_viol("start:no-dtx","no DTX packet in %.0f ms of digital silence (%s)",seg_len[s]*Dms,desc); goto out; } double st=first_dtx_at*Dms; vc_max("dtx_start_ms_after_silence_max",st-200); vc_min("dtx_start_ms_after_silence_min",st-200);
         if(st>200+Dms+1e-6){ vc_viol("start:late","first DTX packet starts %.1f ms after activity stopped, later than 200 ms + one frame (%.1f ms) (%s)",st,Dms,desc); goto out; } if(st<=200-Dms-1e-6){ vc_viol("start:early","first DTX packet starts %.1f ms after activity stopped, more than one frame (%.1f ms) before the 200 ms mark (%s)",st,Dms,desc); goto out; } vc_count("dtx_starts_checked",1); } }
@@ -62,6 +84,9 @@ static void mode_sched(void){
   if(vc_want_sample()) vc_sample("{\"mode\":\"sched\",\"config\":\"%s\",\"segments\":%d,\"packets\":%ld,\"analysis_in_charge\":%d}",desc,nseg,total,analysis);
 out:
   opus_encoder_destroy(e); opus_decoder_destroy(dA); opus_decoder_destroy(dB);
+#ifdef VERIF_HAVE_REF
+  if(fA) RD(opus_decoder_destroy)(fA); if(fB) RD(opus_decoder_destroy)(fB);
+#endif
 }
 
 int main(int argc,char **argv){
